@@ -372,7 +372,7 @@ static char AxisRel(int al, int ah, int bl, int bh) {
   return 'o';
 }
 // Coordinate-free contact type of two boxes.
-static std::string PairRel(const LBox& a, const LBox& b) {
+static std::string PairRel(const LBox& a, const LBox& b, bool fine = false) {
   int nd = 0, nt = 0, ne = 0, nc = 0, ni = 0, no = 0, shared = 0;
   for (int k = 0; k < 3; k++) {
     char r = AxisRel(a.lo[k], a.hi[k], b.lo[k], b.hi[k]);
@@ -392,13 +392,13 @@ static std::string PairRel(const LBox& a, const LBox& b) {
   if (no == 0 && ni == 0) s = "contains";       // a contains b
   else if (no == 0 && nc == 0) s = "inside";    // a inside b
   else s = "overlap";
-  return s + "/" + std::to_string(shared) + "coplanar";
+  return fine ? s + "/" + std::to_string(shared) + "coplanar" : s;
 }
 
 // canonical, coordinate-free description of an expression over boxes:
 // shape with leaves lettered by first occurrence (equal boxes = same letter),
 // then the contact type of every pair of distinct boxes.
-static std::string Signature(const EP& e) {
+static std::string Signature(const EP& e, bool fine = false) {
   std::vector<Expr*> ls;
   Leaves(e, ls);
   std::vector<LBox> distinct;
@@ -425,8 +425,99 @@ static std::string Signature(const EP& e) {
   std::string s = shape(e);
   for (size_t i = 0; i < distinct.size(); i++)
     for (size_t j = i + 1; j < distinct.size(); j++)
-      s += std::string(";") + (char)('a' + i) + (char)('a' + j) + "=" + PairRel(distinct[i], distinct[j]);
+      s += std::string(";") + (char)('a' + i) + (char)('a' + j) + "=" + PairRel(distinct[i], distinct[j], fine);
   return s;
+}
+
+
+// ------------------------------------------------------------------ operand classes (for keys)
+// Coordinate-free description of HOW an operand is only marginally valid. All
+// plain box pairs work on the pinned tree; the wrong results need an operand
+// that is itself a library result with one of these features.
+static bool NonManifoldContact(const Vox& x) {
+  const int N = x.N;
+  // lattice edges: the four voxels around an edge filled diagonally
+  for (int i = 0; i <= N; i++)
+    for (int j = 0; j <= N; j++)
+      for (int k = 0; k <= N; k++) {
+        // edge along z through (i,j), voxels (i-1|i, j-1|j, k)
+        if (k < N) { int a = x.get(i - 1, j - 1, k), b = x.get(i, j - 1, k), c2 = x.get(i - 1, j, k), d = x.get(i, j, k); if ((a && d && !b && !c2) || (b && c2 && !a && !d)) return true; }
+        if (j < N) { int a = x.get(i - 1, j, k - 1), b = x.get(i, j, k - 1), c2 = x.get(i - 1, j, k), d = x.get(i, j, k); if ((a && d && !b && !c2) || (b && c2 && !a && !d)) return true; }
+        if (i < N) { int a = x.get(i, j - 1, k - 1), b = x.get(i, j, k - 1), c2 = x.get(i, j - 1, k), d = x.get(i, j, k); if ((a && d && !b && !c2) || (b && c2 && !a && !d)) return true; }
+        // lattice vertex: filled (and empty) voxels among the 8 around it must be face-connected
+        for (int want = 0; want < 2; want++) {
+          int cell[8], n = 0, first = -1;
+          for (int q = 0; q < 8; q++) {
+            cell[q] = x.get(i - 1 + (q & 1), j - 1 + ((q >> 1) & 1), k - 1 + ((q >> 2) & 1)) == want;
+            if (cell[q]) { n++; if (first < 0) first = q; }
+          }
+          if (n == 0 || n == 8) continue;
+          int seen = 1 << first, grow = 1;
+          while (grow) {
+            grow = 0;
+            for (int q = 0; q < 8; q++)
+              if ((seen >> q) & 1)
+                for (int b = 0; b < 3; b++) {
+                  int o = q ^ (1 << b);
+                  if (cell[o] && !((seen >> o) & 1)) { seen |= 1 << o; grow = 1; }
+                }
+          }
+          int cnt = 0;
+          for (int q = 0; q < 8; q++) cnt += (seen >> q) & 1;
+          if (cnt != n) return true;
+        }
+      }
+  return false;
+}
+static long BoundaryFaces(const Vox& x) {
+  long f = 0;
+  const int N = x.N;
+  for (int i = 0; i < N; i++)
+    for (int j = 0; j < N; j++)
+      for (int k = 0; k < N; k++)
+        if (x.get(i, j, k))
+          f += !x.get(i - 1, j, k) + !x.get(i + 1, j, k) + !x.get(i, j - 1, k) + !x.get(i, j + 1, k) + !x.get(i, j, k - 1) + !x.get(i, j, k + 1);
+  return f;
+}
+static std::string MeshClass(const Manifold& m, const Vox& x) {
+  MeshGL64 g = m.GetMeshGL64();
+  vo::Soup s = vo::MakeSoup(g);
+  if (s.t.empty()) return "empty";
+  if (x.count() == 0) return "flat-sheet";
+  LBox bx;
+  if (x.IsBox(bx) && s.v.size() == 8 && s.t.size() == 12) return "box";
+  std::string f;
+  auto add = [&](const char* w) { f += (f.empty() ? "" : ","); f += w; };
+  if (NonManifoldContact(x)) add("nonmanifold-contact");
+  // redundant vertices: all incident non-degenerate triangles lie in <= 2 plane directions
+  std::vector<int> dirs(s.v.size(), 0);
+  bool off = false;
+  for (auto& t : s.t) {
+    V3 n = vo::cross(s.v[t[1]] - s.v[t[0]], s.v[t[2]] - s.v[t[0]]);
+    long double ax = fabsl(n.x), ay = fabsl(n.y), az = fabsl(n.z);
+    if (ax == 0 && ay == 0 && az == 0) continue;
+    int d = ax >= ay && ax >= az ? (n.x > 0 ? 1 : 2) : ay >= az ? (n.y > 0 ? 4 : 8) : (n.z > 0 ? 16 : 32);
+    for (int k = 0; k < 3; k++) dirs[t[k]] |= d;
+  }
+  bool redundant = false;
+  for (size_t i = 0; i < s.v.size(); i++) {
+    if (__builtin_popcount(dirs[i]) <= 2 && dirs[i]) redundant = true;
+    if (s.v[i].x != floorl(s.v[i].x) || s.v[i].y != floorl(s.v[i].y) || s.v[i].z != floorl(s.v[i].z)) off = true;
+  }
+  if (redundant) add("redundant-verts");
+  if (off) add("off-lattice-verts");
+  if ((double)vo::SoupArea(s) > (double)BoundaryFaces(x) + 1e-9) add("double-wall");
+  return f.empty() ? "solid" : "solid[" + f + "]";
+}
+static std::string SetRel(const Vox& a, const Vox& b) {
+  long na = a.count(), nb = b.count(), ni = 0;
+  for (size_t q = 0; q < a.v.size(); q++) ni += a.v[q] && b.v[q];
+  if (na == 0 || nb == 0) return "one-empty";
+  if (ni == na && ni == nb) return "X=Y";
+  if (ni == na) return "X-inside-Y";
+  if (ni == nb) return "X-contains-Y";
+  if (ni > 0) return "overlap";
+  return "interiors-disjoint";
 }
 
 // ------------------------------------------------------------------ shrinking
@@ -516,6 +607,35 @@ static Shrunk Shrink(vh::Ctx& c, const EP& start, int N) {
       }
     }
     if (progress) continue;
+    // (a') a BatchBoolean that also fails as a left-nested chain of binary steps: blame the binary step
+    {
+      std::vector<EP*> nodes;
+      Nodes(s.expr, nodes);
+      for (size_t ni = 0; ni < nodes.size() && !progress; ni++) {
+        Expr* n = nodes[ni]->get();
+        if (n->op < 0 || !n->batch) continue;
+        EP chain;
+        if (n->op == 1 && n->kids.size() > 2) {  // k0 - (k1 + k2 + ...)
+          EP neg = n->kids[1];
+          for (size_t i = 2; i < n->kids.size(); i++) neg = Bin(0, neg, n->kids[i]);
+          chain = Bin(1, n->kids[0], neg);
+        } else {
+          chain = n->kids[0];
+          for (size_t i = 1; i < n->kids.size(); i++) chain = Bin(n->op, chain, n->kids[i]);
+        }
+        EP saved = *nodes[ni];
+        *nodes[ni] = chain;
+        EP whole = Clone(s.expr);
+        *nodes[ni] = saved;
+        Verdict v;
+        if (Fails(c, whole, N, v, s.evals)) {
+          s.expr = whole;
+          s.v = v;
+          progress = true;
+        }
+      }
+    }
+    if (progress) continue;
     // (b) shrink one box by one unit on one side (all equal copies together)
     {
       std::vector<Expr*> ls;
@@ -577,9 +697,32 @@ static void Report(vh::Ctx& c, const std::string& family, const EP& failingExpr,
   const EP& e = s.expr;
   const Verdict& v = s.reproducedAsTree ? s.v : v0;
   std::string opn = e->op >= 0 ? kOpName[e->op] : "Leaf";
-  std::string key = "lattice:" + opn + ":wrong-result:" + (s.reproducedAsTree ? Signature(e) : std::string("not-reproducible-as-tree"));
+  // key = operation + HOW the operands of the (shrunk) failing step are marginal + their set relation
+  std::string cls = "not-reproducible-as-tree";
+  if (s.reproducedAsTree && e->op >= 0) {
+    std::vector<Value> ks(e->kids.size());
+    std::vector<std::string> kc;
+    bool evalOk = true;
+    for (size_t i = 0; i < e->kids.size() && evalOk; i++) {
+      long budget = 1000;
+      EP dummy;
+      Verdict dv;
+      evalOk = Eval(c, e->kids[i], N, ks[i], &dummy, &dv, budget);
+      if (evalOk) kc.push_back(MeshClass(ks[i].m, ks[i].x));
+    }
+    if (!evalOk) cls = "operand-evaluation-unstable";
+    else if (e->batch) {
+      std::sort(kc.begin(), kc.end());
+      kc.erase(std::unique(kc.begin(), kc.end()), kc.end());
+      cls = "batch(";
+      for (size_t i = 0; i < kc.size(); i++) cls += (i ? "|" : "") + kc[i];
+      cls += ")";
+    } else
+      cls = "X=" + kc[0] + ":Y=" + kc[1] + ":" + SetRel(ks[0].x, ks[1].x);
+  }
+  std::string key = "lattice:" + opn + ":wrong-result:" + cls;
   c.violation(key, vh::J().s("family", family).s("failing_step", Str(failingExpr)).s("shrunk", Str(e))
-                       .s("shrunk_signature", Signature(e)).s("clause", v.kind).s("info", v.info)
+                       .s("shrunk_signature", Signature(e, true)).s("operand_classes", cls).s("clause", v.kind).s("info", v.info)
                        .d("result_volume", v.soupVolume).i("expected_voxels", v.expectVoxels)
                        .i("result_tris", (long long)v.nTri).i("shrink_evaluations", s.evals)
                        .i("N", N).s("program", program).str());
@@ -745,18 +888,55 @@ static void TouchCase(vh::Ctx& c) {
         if (r == "touch-edge" || r == "touch-vertex") touching.push_back({(int)i, (int)j});
       }
   const int per = (int)c.iparam("per", 24);
+  // Cases 0..5: regression sub-family, fully enumerated: for six fixed edge-touching (P,Q)
+  // every box X that touches one of them along an edge and shares volume with the other,
+  // X - (P+Q), X ^ (P+Q), X - (Q+P), X ^ (Q+P).
+  static const LBox seedsP[6] = {{{0, 1, 1}, {3, 2, 2}}, {{0, 1, 0}, {2, 3, 1}}, {{1, 0, 0}, {3, 1, 1}},
+                                 {{0, 0, 0}, {1, 2, 1}}, {{1, 1, 1}, {2, 2, 2}}, {{0, 0, 0}, {1, 3, 2}}};
+  static const LBox seedsQ[6] = {{{1, 0, 0}, {2, 1, 1}}, {{2, 2, 1}, {3, 3, 2}}, {{2, 1, 1}, {3, 2, 2}},
+                                 {{1, 1, 1}, {2, 2, 2}}, {{2, 2, 0}, {3, 3, 3}}, {{1, 2, 2}, {2, 3, 3}}};
+  if (c.idx < 6) {
+    const LBox &P = seedsP[c.idx], &Q = seedsQ[c.idx];
+    auto vol = [](const std::string& r) { return r == "contains" || r == "inside" || r == "overlap" || r == "equal"; };
+    for (auto& X : boxes) {
+      std::string rp = PairRel(X, P), rq = PairRel(X, Q);
+      if (!((rp == "touch-edge" && vol(rq)) || (rq == "touch-edge" && vol(rp)))) continue;
+      for (int op = 1; op <= 2; op++)
+        for (int order = 0; order < 2; order++) {
+          EP u = order ? Bin(0, Leaf(Q), Leaf(P)) : Bin(0, Leaf(P), Leaf(Q));
+          EP e = Bin(op, Leaf(X), u);
+          Value out;
+          EP failing;
+          Verdict fv;
+          long budget = 100;
+          c.site(std::string("lattice-touch:") + kOpName[op]);
+          c.count("lattice_touch_programs");
+          c.count("lattice_touch_regression_programs");
+          if (!Eval(c, e, N, out, &failing, &fv, budget)) Report(c, "touch-regression", failing, N, fv, Str(e));
+          else if (out.v.nTri > 0) c.sig(std::string("TR") + kOpChar[op] + PairRel(X, P) + PairRel(X, Q));
+        }
+      c.heartbeat();
+    }
+    return;
+  }
   for (int n = 0; n < per; n++) {
     auto pq = touching[c.rng.below(touching.size())];
     const LBox &P = boxes[pq.first], &Q = boxes[pq.second];
-    // X: prefer boxes that contain one of them or touch both
+    // X: related to both; in half of the programs X touches one of them along
+    // an edge and shares volume with the other (where the pinned tree fails)
     LBox X;
-    for (int tries = 0; tries < 50; tries++) {
+    const bool targeted = c.rng.chance(0.5);
+    for (int tries = 0; tries < 400; tries++) {
       X = boxes[c.rng.below(boxes.size())];
       std::string rp = PairRel(X, P), rq = PairRel(X, Q);
-      if (rp != "apart" && rq != "apart") break;
+      auto vol = [](const std::string& r) { return r == "contains" || r == "inside" || r == "overlap" || r == "equal"; };
+      if (targeted) {
+        if ((rp == "touch-edge" && vol(rq)) || (rq == "touch-edge" && vol(rp))) break;
+      } else if (rp != "apart" && rq != "apart")
+        break;
     }
     int op = c.rng.range(0, 2);
-    bool left = c.rng.chance(0.5);
+    bool left = c.rng.chance(targeted ? 0.25 : 0.5);
     EP u = Bin(0, Leaf(P), Leaf(Q));
     EP e = left ? Bin(op, u, Leaf(X)) : Bin(op, Leaf(X), u);
     Value out;
